@@ -92,7 +92,37 @@ def opOfLists (j : Json) : E Json := do
   let m := if (← jBool (← field j "orphans")) then m.orphanRemoval else m
   pure <| Json.mkObj [("mesh", meshJ m), ("consistent", .bool m.Consistent), ("failing", lJ Json.str m.failing)]
 
+def jMat (j : Json) : E Mat := jList (jList jRat) j
+
+/-- certificate evaluation in exact arithmetic on the floats the real solver returned -/
+def opKkt (j : Json) : E Json := do
+  let M ← jMat (← field j "M")
+  let b ← jList jRat (← field j "b")
+  let z ← jList jRat (← field j "z")
+  let eps ← jRat (← field j "eps")
+  let delta ← jRat (← field j "delta")
+  let w := grad M b z
+  let res := vsub (mulVec M z) b
+  let minW := w.foldl (fun a v => if v < a then v else a) 0
+  let maxAbsW := w.foldl (fun a v => if ratAbs' v > a then ratAbs' v else a) 0
+  let maxAbsRes := res.foldl (fun a v => if ratAbs' v > a then ratAbs' v else a) 0
+  pure <| Json.mkObj [
+    ("shaped", .bool (shapedB M b M.length z.length)),
+    ("kkt", .bool (kktCheck M b z eps delta)),
+    ("stationary", .bool (statCheck M b z eps)),
+    ("solves", .bool (solveCheck M b z eps)),
+    ("minW", rJ minW), ("maxAbsW", rJ maxAbsW), ("zw", rJ (dot z w)), ("maxAbsRes", rJ maxAbsRes),
+    ("residSq", rJ (residSq M b z)),
+    ("minZ", rJ (z.foldl (fun a v => if v < a then v else a) 0))]
+
+def opAddMeanOne (j : Json) : E Json := do
+  let A ← jMat (← field j "A")
+  let b ← jList jRat (← field j "b")
+  let r := addMeanOne A b
+  pure <| Json.mkObj [("M", lJ (lJ rJ) r.1), ("b", lJ rJ r.2)]
+
 def ops : List Op := [
+  ("kkt", opKkt), ("add_mean_one", opAddMeanOne),
   ("of_lists", opOfLists),
   ("cell_geom", opCellGeom), ("consistent", opConsistent), ("frame", opFrame), ("by_cells", opByCells),
   ("genmesh", opGenMesh), ("pick", opPick), ("fmatrix", opFMatrix), ("realign", opRealign)]
